@@ -661,6 +661,78 @@ def hetarene_pairs(ctx, n):
     return out
 
 
+PUSH_PULL = ['CN(C)C=C1C=CC=C1', 'CN(C)C=C1C=CC=CC=C1', 'CN(C)C=CC=O', 'CN(C)C=CC=CC=O', 'CN1C=CC(=O)C=C1', 'CN1C=CC=CC1=O', 'CN(C)C1=CC(=O)C=C1',
+             'CN(C)C1=CC=CC(=O)C=C1', 'CN1C=CC=C1C=O', 'CN(C)C=C1C=CC(=O)C=C1', 'CN(C)c1ccc(C=O)cc1', 'CN1C=CC=C1C=C1C=CC=C1', 'CN(C)C=CC1=CC=CC1=O',
+             'CN(C)C1=CC=C(C=C1)C=C1C=CC=C1', 'COC=C1C=CC=C1', 'CN(C)C=C1C=CC2=CC=CC=C12']
+POLYENES = ['C=CC=C', 'C=C1C=CC=C1', 'C=C1C=CC=CC=C1', 'C=CC=CC=C', 'C=C1C=CC(=C)C=C1', 'CC=CC=C1C=CC=C1', 'C=CC1=CC=CC1=C']
+
+
+def resonance_drawings(m, radical, limit=6, maxlen=10):
+    """charge-separated (or biradical) resonance drawings of a neutral conjugated molecule: the bond orders along an
+    alternating path are flipped; N/O donor gets +, the far end - (or both carbon ends become radicals). `fix_resonance`
+    documents that it transforms exactly these back into the neutral form. Chains and rings of every size, odd ones included."""
+    m = m.copy()
+    m.kekule()
+    out, seen = [], set()
+    for n, a in m.atoms():
+        if a.charge or a.is_radical:
+            continue
+        if radical:
+            if a.atomic_number != 6:
+                continue
+        elif a.atomic_number not in (7, 8) or any(int(b) != 1 for b in m._bonds[n].values()):
+            continue
+        stack = [(n, [n])]
+        while stack and len(out) < limit:
+            cur, path = stack.pop()
+            first = 2 if radical else 1
+            want = first if len(path) % 2 else 3 - first
+            for k, b in m._bonds[cur].items():
+                if k in path or int(b) != want:
+                    continue
+                p2 = path + [k]
+                end = m.atom(k)
+                if want == 2 and not end.charge and not end.is_radical and len(p2) >= (4 if radical else 3) and \
+                        end.atomic_number in ((6,) if radical else (6, 7, 8)) and frozenset((p2[0], p2[-1])) not in seen:
+                    seen.add(frozenset((p2[0], p2[-1])))
+                    c = m.copy()
+                    for i in range(len(p2) - 1):
+                        bo = c._bonds[p2[i]][p2[i + 1]]
+                        bo._order = 2 if int(bo) == 1 else 1
+                    if radical:
+                        c.atom(p2[0])._is_radical = True
+                        c.atom(p2[-1])._is_radical = True
+                    else:
+                        c.atom(p2[0])._charge = 1
+                        c.atom(p2[-1])._charge = -1
+                    d, _ = wire.ints_to_mol(wire.mol_to_ints(c), calc=True)
+                    if is_valid(d):
+                        out.append(d)
+                if len(p2) < maxlen:
+                    stack.append((k, p2))
+    return out
+
+
+def resonance_instances():
+    out = []
+    for seeds, radical in ((PUSH_PULL, False), (POLYENES, True)):
+        for smi in seeds:
+            m = molgen.parse(smi)
+            if m is None:
+                continue
+            try:
+                ds = resonance_drawings(m, radical)
+            except Exception:
+                continue
+            for i, d in enumerate(ds):
+                out.append((f'dipole:{smi}#{i}', d, [], None))
+    return out
+
+
+MONO_AZOLIUM = ['C[n+]1cc[nH]c1', 'Cn1cc[nH+]c1', 'CC[n+]1cc[nH]c1C', 'CCn1cc[nH+]c1C', 'C[n+]1[nH]ccc1', 'Cn1[nH+]ccc1', 'C[n+]1c[nH]nc1',
+                'Cn1c[nH+]nc1', 'OC(=O)C(N)Cc1c[nH]c[nH+]1', 'OC(=O)C(N)Cc1c[nH+]c[nH]1', 'C[n+]1cc[nH]c1-c1ccccc1', 'c1ccc2[nH]c[n+](C)c2c1']
+
+
 def normalised(m):
     """aromatic input as the library wants it: `smiles()` leaves the hydrogen counts of aromatic hetero atoms undefined (and
     ring-ring bonds aromatic) until `kekule()`; kekule + thiele (without tautomer fixing) gives the same drawing with every
@@ -692,6 +764,11 @@ def molecule_pool(ctx):
     pool += overlap_instances(ctx, 1 if ctx.quick else 3)
     pool += multi_ligand_instances(ctx, (2, 3) if ctx.quick else (2, 3, 4), 10 if ctx.quick else 40)
     pool += azolium_instances()
+    for smi in MONO_AZOLIUM:  # monocyclic azolium cations, the substituent on either nitrogen (the Morgan rules of _charged.py)
+        m = molgen.parse(smi)
+        if m is not None:
+            pool.append((f'azolium:{smi}', normalised(m), [], None))
+    pool += resonance_instances()
     pool += hetarene_pairs(ctx, 8 if ctx.quick else 60)
     if not ctx.quick:
         g = grid_instances(ctx)
@@ -1289,6 +1366,10 @@ def oracle(ints, op, ft, rng=None, renumber=True):
         if valid:
             fails.append(('never-fails', f'{type(e).__name__}: {e}'))
         return fails
+    if op != 'tautomers':
+        sc = stale_cache(m)
+        if sc:
+            fails.append(('stale-cache', sc))
     for o in outs:
         if heavy(o) != comp0:
             fails.append(('heavy-atoms', f'{dict(comp0)} -> {dict(heavy(o))}'))
@@ -1664,6 +1745,147 @@ def hydrogen_spelling_oracle(ints, fts=(False, True)):
     return out
 
 
+def label_state(m):
+    """what is cached in the object: atom labels, bond ring flags, ring set"""
+    return ([(n, a._neighbors, a._hybridization, a._heteroatoms, tuple(sorted(a._ring_sizes)), bool(a._in_ring)) for n, a in m._atoms.items()],
+            sorted((min(n, k), max(n, k), bool(b._in_ring)) for n, k, b in m.bonds()),
+            sorted(tuple(sorted(r)) for r in m.sssr))
+
+
+def stale_cache(o):
+    """the object an operation leaves behind must describe its own bonds: the cached rings and the labels derived from them
+    equal those of a freshly built object with the same atoms and bonds (rings kept across a bond that became a coordinate
+    bond, labels not recalculated ...). Returns a description or None."""
+    try:
+        fresh, _ = wire.ints_to_mol(wire.mol_to_ints(o), calc=True)
+        a, b = label_state(o), label_state(fresh)
+    except Exception as e:
+        return f'{type(e).__name__}: {str(e)[:80]}'
+    if a != b:
+        part = ['atom labels', 'bond ring flags', 'ring set'][[i for i in range(3) if a[i] != b[i]][0]]
+        return f'{part} differ from a fresh object: {str(a[2])[:120]} vs {str(b[2])[:120]}'
+    return None
+
+
+OPTION_VARIANTS = [
+    # (name, reference call, variant call, must equal the reference structure)
+    ('canonicalize/keep_kekule', lambda m, ft: m.canonicalize(fix_tautomers=ft), lambda m, ft: m.canonicalize(fix_tautomers=ft, keep_kekule=True), True),
+    ('canonicalize/logging', lambda m, ft: m.canonicalize(fix_tautomers=ft), lambda m, ft: m.canonicalize(fix_tautomers=ft, logging=True), True),
+    ('canonicalize/keep_kekule+logging', lambda m, ft: m.canonicalize(fix_tautomers=ft), lambda m, ft: m.canonicalize(fix_tautomers=ft, keep_kekule=True, logging=True), True),
+    ('canonicalize/ignore=False', lambda m, ft: m.canonicalize(fix_tautomers=ft), lambda m, ft: m.canonicalize(fix_tautomers=ft, ignore=False), True),
+    ('standardize/logging', lambda m, ft: m.standardize(fix_tautomers=ft), lambda m, ft: m.standardize(fix_tautomers=ft, logging=True), True),
+    ('standardize/ignore=False', lambda m, ft: m.standardize(fix_tautomers=ft), lambda m, ft: m.standardize(fix_tautomers=ft, ignore=False), True),
+    ('standardize_charges/prepare', lambda m, ft: (m.thiele(), m.standardize_charges(prepare_molecule=False)), lambda m, ft: m.standardize_charges(), True),
+    ('standardize_charges/logging', lambda m, ft: m.standardize_charges(), lambda m, ft: m.standardize_charges(logging=True), True),
+    ('fix_resonance/logging', lambda m, ft: m.fix_resonance(), lambda m, ft: m.fix_resonance(logging=True), True),
+    ('neutralize/logging', lambda m, ft: m.neutralize(), lambda m, ft: m.neutralize(logging=True), True),
+    ('neutralize/keep_charge=False', lambda m, ft: m.neutralize(), lambda m, ft: m.neutralize(keep_charge=False), False),
+    ('implicify/logging', lambda m, ft: m.implicify_hydrogens(), lambda m, ft: m.implicify_hydrogens(logging=True), True),
+    ('explicify/start_map', lambda m, ft: m.explicify_hydrogens(), lambda m, ft: m.explicify_hydrogens(start_map=max(m._atoms) + 7), True),
+]
+TAUTOMER_VARIANTS = [dict(zwitter=False), dict(partial=True), dict(increase_aromaticity=False), dict(keep_sugars=False),
+                     dict(heteroarenes=False), dict(keto_enol=False), dict(prepare_molecules=False)]
+
+
+def options_oracle(ints, ft, with_tautomers=False):
+    """the non-default keyword options of the public operations: the result is a valid structure with the input's composition,
+    charge and hydrogens (protons balanced for `neutralize(keep_charge=False)`), coherent caches, and - where the option only
+    changes reporting or the drawing (logging, keep_kekule, ignore, prepare, start_map) - the same structure as the default call.
+    Returns [(variant, check, detail)]."""
+    from chython.exceptions import ImplementationError
+    m0, _ = wire.ints_to_mol(ints, calc=True)
+    if not is_valid(m0):
+        return []
+    m0.clean_stereo()
+    comp0, q0, h0 = heavy(m0), int(m0), hcount(m0)
+    out = []
+    for name, ref_call, var_call, same in OPTION_VARIANTS:
+        ref, var = m0.copy(), m0.copy()
+        try:
+            ref_call(ref, ft)
+        except Exception:
+            continue
+        try:
+            var_call(var, ft)
+        except ImplementationError:
+            if 'ignore=False' in name and ref.check_valence():
+                continue  # documented: raises when standardization leads to invalid valences
+            out.append((name, 'never-fails', 'ImplementationError although the default call leaves no valence error'))
+            continue
+        except Exception as e:
+            out.append((name, 'never-fails', f'{type(e).__name__}: {e}'))
+            continue
+        if heavy(var) != comp0:
+            out.append((name, 'heavy-atoms', f'{dict(comp0)} -> {dict(heavy(var))}'))
+            continue
+        q1, h1 = int(var), hcount(var)
+        if 'keep_charge=False' in name:
+            if h1 is None or q1 - q0 != h1 - h0:
+                out.append((name, 'proton-balance', f'charge {q0}->{q1}, H {h0}->{h1}'))
+        elif (q1, h1) != (q0, h0) and (int(ref), hcount(ref)) == (q0, h0):
+            out.append((name, 'net-charge' if q1 != q0 else 'hydrogen-count', f'charge {q0}->{q1}, H {h0}->{h1}'))
+        bad = var.check_valence() or inconsistent_atoms(var)
+        if bad and not (ref.check_valence() or inconsistent_atoms(ref)):
+            out.append((name, 'valence-error', f'{str(var)}: atoms {bad}'))
+            continue
+        nk = not_kekulizable(var)
+        if nk and not not_kekulizable(ref):
+            out.append((name, 'valence-error', f'{str(var)} is not a structure: {nk}'))
+            continue
+        sc = stale_cache(var)
+        if sc:
+            out.append((name, 'stale-cache', sc))
+        if 'keep_kekule' in name and any(int(b) == 4 for _, _, b in var.bonds()) and not any(int(b) == 4 for _, _, b in m0.bonds()):
+            pass  # aromatic input is allowed to stay aromatic where kekule() has nothing to restore
+        if same and not same_structure(ref, var):
+            out.append((name, 'option-equivalence', f'default -> {canon(ref)}, variant -> {canon(var)}'))
+    if with_tautomers and len(m0) <= 40:
+        for kw in TAUTOMER_VARIANTS:
+            name = 'tautomers/' + ','.join(f'{k}={v}' for k, v in kw.items())
+            try:
+                ts = list(itertools.islice(m0.copy().enumerate_tautomers(limit=10, **kw), 10))
+            except Exception as e:
+                out.append((name, 'never-fails', f'{type(e).__name__}: {e}'))
+                continue
+            for t in ts:
+                if heavy(t) != comp0 or int(t) != q0 or hcount(t) != h0:
+                    out.append((name, 'hydrogen-count' if int(t) == q0 else 'net-charge', f'{str(t)}: charge {q0}->{int(t)}, H {h0}->{hcount(t)}'))
+                    break
+                nk = t.check_valence() or inconsistent_atoms(t) or not_kekulizable(t)
+                if nk:
+                    out.append((name, 'valence-error', f'{str(t)}: {nk}'))
+                    break
+    return out
+
+
+def dipole_oracle(ints, seed_smiles, rng, k):
+    """charge-separated / biradical drawings of one neutral molecule: fix_resonance gives the neutral form back and, like
+    standardize and canonicalize, gives the same result for `k` random renumberings (atom numbers and insertion orders)."""
+    d, _ = wire.ints_to_mol(ints, calc=True)
+    out = []
+    ref = molgen.parse(seed_smiles)
+    try:
+        a = d.copy()
+        a.fix_resonance()
+        if ref is not None and not same_structure(a, normalised(ref)):
+            out.append(('fix_resonance', 'dipole-not-neutralised', f'{str(d)} -> {canon(a)}, neutral form {seed_smiles}'))
+    except Exception as e:
+        out.append(('fix_resonance', 'never-fails', f'{type(e).__name__}: {e}'))
+    for op in ('fix_resonance', 'standardize', 'canonicalize'):
+        try:
+            a = d.copy()
+            apply_op(op, a, False)
+            for _ in range(k):
+                m2, mapping = molgen.renumber(rng, d)
+                apply_op(op, m2, False)
+                if not same_structure(a, m2):
+                    out.append((op, 'renumbering', f'{canon(a)} vs {canon(m2)} (mapping {mapping})'))
+                    break
+        except Exception as e:
+            out.append((op, 'never-fails', f'{type(e).__name__}: {e}'))
+    return out
+
+
 def twice_oracle(ints, op):
     """idempotence alone (no other clause in front of it): the second call must report nothing and change nothing"""
     m, _ = wire.ints_to_mol(ints, calc=True)
@@ -1757,6 +1979,41 @@ def relational(ctx, pool, programs):
         for check, detail, explained in hydrogen_spelling_oracle(ints):
             sg = 'C14/canonicalize/hydrogen-spelling/rules-before-implicify' if explained else sig('canonicalize', check)
             ctx.fail(sg, f'{lab} [{str(mol)}]: {detail}', {'kind': 'hydrogen-spelling', 'wire': ints, 'smiles': str(mol)})
+    # resonance drawings: neutralised, and the same for several renumberings
+    dip = [p for p in pool if p[0].startswith('dipole:')]
+    if ctx.quick and len(dip) > 36:
+        dip = ctx.rng.sample(dip, 36)
+    for lab, mol, _f, _h in dip:
+        ints = wire.mol_to_ints(mol)
+        seed_smi = lab[len('dipole:'):].rsplit('#', 1)[0]
+        ctx.count(('R', 'dipole', str(mol)))
+        ctx.dist('R:resonance-drawings')
+        for op, check, detail in dipole_oracle(ints, seed_smi, ctx.rng, 2 if ctx.quick else 8):
+            for sg in (signature(ints, op, check, False) if check == 'renumbering' else [sig(op, check)]):
+                ctx.fail(sg, f'{op} on {lab} [{str(mol)}]: {check}: {detail}',
+                         {'kind': 'dipole', 'wire': ints, 'seed': seed_smi, 'smiles': str(mol)})
+    # non-default keyword options of the public operations
+    op_budget = time.time() + (20 if ctx.quick else 200)
+    opt_order = sorted(range(len(pool)), key=lambda i: 0 if pool[i][0].startswith(('azolium:', 'extra:', 'hetpair:', 'ion:', 'hand:')) else 1)
+    for j, i in enumerate(opt_order):
+        if time.time() > op_budget:
+            ctx.notes.append(f'options budget reached after {j} molecules')
+            break
+        lab, mol, _f, _h = pool[i]
+        if len(mol) > 60 or 'xmetal' in lab or lab.startswith(('multi:', 'mix:', 'rand', 'dipole:')):
+            continue
+        ints = wire.mol_to_ints(mol)
+        for ft in (False, True):
+            ctx.count(('R', 'options', ft, str(mol)))
+            ctx.dist('R:options')
+            for name, check, detail in options_oracle(ints, ft, with_tautomers=(ft and j % 4 == 0)):
+                base_op = name.split('/')[0]
+                sgs = signature(ints, base_op, check, ft) if check in ('hydrogen-count', 'net-charge', 'valence-error', 'idempotent') and base_op in ('standardize', 'canonicalize') else None
+                if not sgs or sgs == [sig(base_op, check)]:
+                    sgs = [f'C14/{name}/{check}']
+                for sg in sgs:
+                    ctx.fail(sg, f'{name}(fix_tautomers={ft}) on {lab} [{str(mol)}]: {check}: {detail}',
+                             {'kind': 'options', 'wire': ints, 'fix_tautomers': ft, 'variant': name, 'smiles': str(mol)})
     # several ligands on one metal: one call must do all of them
     for lab, mol, _f, _h in pool:
         if not lab.startswith(('multi:', 'mix:')):
@@ -1769,6 +2026,8 @@ def relational(ctx, pool, programs):
                 for sg in signature(ints, op, check, True):
                     ctx.fail(sg, f'{op} on {lab} [{str(mol)}]: {check}: {detail}',
                              {'kind': 'twice', 'op': op, 'wire': ints, 'smiles': str(mol)})
+    budget = 55 if ctx.quick else 600
+    t0 = time.time()   # the generic loop has its own budget
     order = list(range(len(pool)))
     ctx.rng.shuffle(order)
     # small purpose-built classes first (the time budget cuts the tail of the shuffled rest, never these)
@@ -1784,7 +2043,18 @@ def relational(ctx, pool, programs):
             continue
         if 'xmetal:' in lab or lab.startswith(('multi:', 'mix:')):
             # arbitrary metals / several ligands on one metal: the metal's oxidation state is usually untabulated, so only the
-            # idempotence, conversion and ledger clauses (above) and the correspondence streams run on them
+            # idempotence, conversion and ledger clauses (above), cache coherence and the correspondence streams run on them
+            ints = wire.mol_to_ints(mol)
+            for op in ('standardize', 'canonicalize'):
+                try:
+                    c = mol.copy()
+                    apply_op(op, c, True)
+                except Exception:
+                    continue
+                sc = stale_cache(c)
+                ctx.count(('R', 'cache', op, str(mol)))
+                if sc:
+                    ctx.fail(sig(op, 'stale-cache'), f'{op} on {lab} [{str(mol)}]: {sc}', {'kind': 'cache', 'op': op, 'wire': ints, 'smiles': str(mol)})
             continue
         ints = wire.mol_to_ints(mol)
         corpus = lab.startswith('corpus[') and '+' not in lab
@@ -1917,6 +2187,18 @@ def probe(inp):
             ints = inp['wire']
         f = hydrogen_spelling_oracle(ints)
         return bool(f), f'{inp.get("smiles")}: ' + (f[0][1] if f else 'explicit and implicit spelling reach the same canonical form')
+    if kind == 'cache':
+        m, _ = wire.ints_to_mol(inp['wire'], calc=True)
+        apply_op(inp['op'], m, True)
+        sc = stale_cache(m)
+        return bool(sc), f'{inp["op"]} on {inp.get("smiles")}: ' + (sc or 'caches describe the result')
+    if kind == 'dipole':
+        import random as _r
+        f = dipole_oracle(inp['wire'], inp['seed'], _r.Random(0), 8)
+        return bool(f), f'{inp.get("smiles")}: ' + (f'{f[0][0]}: {f[0][1]}: {f[0][2]}' if f else 'neutralised, numbering independent')
+    if kind == 'options':
+        f = [x for x in options_oracle(inp['wire'], inp['fix_tautomers'], True) if x[0] == inp.get('variant', x[0])]
+        return bool(f), f'{inp.get("smiles")}: ' + (f'{f[0][0]}: {f[0][1]}: {f[0][2]}' if f else 'option variants agree with the default call')
     if kind == 'twice':
         f = twice_oracle(inp['wire'], inp['op'])
         return bool(f), f'{inp["op"]} twice on {inp.get("smiles")}: ' + (f[0][1] if f else 'second call changes nothing')
